@@ -188,12 +188,12 @@ def run(ctx):
                 ctx.violation("N1", r, "reader-marker", "with the name / description markers %r / %r the loader reads %r for comments that carry "
                               "the names n1, n2 and the description d1" % (custom[0], custom[1], got2), node=r.node,
                               witness="a set saved with custom markers comes back with parts of the marker in its names")
-        if reqs == ['"fileinto"', '"copy"', '"imap4flags"'] or reqs == ["fileinto", "copy", "imap4flags"]:
+        if reqs == ['"fileinto"', '"copy"', '"imap4flags"', '"vnd.x,y"'] or reqs == ["fileinto", "copy", "imap4flags", "vnd.x,y"]:
             ctx.rule("N4", "order and requires")
             ctx.holds("N4", "loader requires every capability of every require command, string or list form (%r)" % (reqs,))
         else:
             ctx.rule("N4", "order and requires")
-            ctx.violation("N4", r, "requires-form", "the loader requires %r for `require \"fileinto\"; require [\"copy\", \"imap4flags\"];`"
+            ctx.violation("N4", r, "requires-form", "the loader requires %r for `require \"fileinto\"; require [\"copy\", \"imap4flags\"]; require \"vnd.x,y\";`"
                           % (reqs,), node=r.node,
                           witness="`require \"fileinto\";` (single string) is loaded character by character, or lists are ignored")
     if le is None:
@@ -401,7 +401,8 @@ def loader_eval(ctx, R, PR, name_attr, desc_attr, markers=None):
     f3 = mk("IfCommand", hash_comments=[], disabled=False, tag="f3")
     q1 = mk("RequireCommand", arguments={"capabilities": '"fileinto"'}, hash_comments=[], tag="q1")
     q2 = mk("RequireCommand", arguments={"capabilities": ['"copy"', '"imap4flags"']}, hash_comments=[], tag="q2")
-    result = [q1, f1, q2, f2, f3]
+    q3 = mk("RequireCommand", arguments={"capabilities": '"vnd.x,y"'}, hash_comments=[], tag="q3")  # one name, with a comma in it
+    result = [q1, f1, q2, f2, f3, q3]
     parser = mk("Parser", result=result)
     selfp = r.params[0]
     pparam = r.params[1] if len(r.params) > 1 else None
@@ -451,7 +452,8 @@ def loader_eval(ctx, R, PR, name_attr, desc_attr, markers=None):
             for k in prog.mro(c):
                 m = k.methods.get(e.attr)
                 if m is not None and "property" in m.decorators:
-                    sub = fd.Interp(m.node, k.name, oracle, loop_unroll=8, max_depth=2)
+                    # (no class name: `self` is the stand-in record, its attributes are the record's fields)
+                    sub = fd.Interp(m.node, None, oracle, loop_unroll=8, max_depth=2)
                     sub.getattr_hook = getattr_hook
                     outs = []
                     for p_ in sub.run({m.params[0]: fd.Const(rec)}, fd.State({}, st.events, {})):
